@@ -636,7 +636,8 @@ func isClaimed(pu PropUnit, o *Obligation) bool {
 
 func groupClaimed(pu PropUnit, g string) bool {
 	if len(pu.Groups) == 0 {
-		return true
+		// every group of the function itself; obligations of escaping function literals ("lit:" groups) only when listed
+		return !strings.HasPrefix(g, "lit:")
 	}
 	for _, x := range pu.Groups {
 		if x == g {
